@@ -192,9 +192,13 @@ func (am *assetMgr) loadRep(logger *slog.Logger, assetPath string, as *m.Adaptat
 	}
 	if !am.writeRepData {
 		ok, err := rp.loadFromJSON(logger, am.vodFS, am.repDataDir, assetPath)
-		if ok {
+		if ok && err == nil {
 			logger.Debug("Loaded representation data from JSON")
-			return &rp, err
+			return &rp, nil
+		}
+		if err != nil { // Unreadable, truncated or otherwise bad file: read the segments instead
+			logger.Warn("Bad representation data file. Reading the segments instead", "err", err.Error())
+			rp = RepData{ID: rep.Id, ContentType: string(as.ContentType), Codecs: as.Codecs, MpdTimescale: 1}
 		}
 	}
 	logger.Debug("Loading full representation by reading all segments")
@@ -352,8 +356,12 @@ func (rp *RepData) loadFromJSON(logger *slog.Logger, vodFS fs.FS, repDataDir, as
 	if len(data) == 0 {
 		return false, nil
 	}
-	if err := json.Unmarshal(data, &rp); err != nil {
+	id := rp.ID
+	if err := json.Unmarshal(data, rp); err != nil {
 		return true, err
+	}
+	if rp.ID != id || len(rp.Segments) == 0 || rp.MediaTimescale <= 0 {
+		return true, fmt.Errorf("representation data for %q lacks id, segments or timescale", id)
 	}
 	err = rp.addRegExpAndInit(logger, vodFS, assetPath)
 	if err != nil {
